@@ -226,6 +226,8 @@ STRING_USES = [
     ('printf-value', 'printf "{}" "%s"'),
     ('printf-named', 'assign s "%s" printf "{s}"'),
     ('compared', 'assign s "%s" if {s == "%s"} print 1 else print 0'),
+    ('argument-after-not', 'define f2 with a b begin print b end f2 not 1 "%s"'),
+    ('argument-after-braces', 'define f2 with a b begin print b end f2 {1 + 1} "%s"'),
 ]
 
 
